@@ -62,7 +62,7 @@ from typing import NamedTuple
 
 from solvor.types import ProgressCallback, Result, Status
 from solvor.utils.helpers import report_progress
-from solvor.utils.pricing import knapsack_pricing, simplex_phase
+from solvor.utils.pricing import drive_out_artificials, knapsack_pricing, simplex_phase
 from solvor.utils.validate import check_non_negative, check_positive, check_sequence_lengths
 
 __all__ = ["solve_bp"]
@@ -272,9 +272,10 @@ def _branch_and_price(
 
         if frac_idx is None:
             # Integer feasible - update incumbent
-            obj = sum(x for x in x_vals if x > eps)
-            if obj < best_obj - eps:
-                best_solution = _build_solution(x_vals, columns, eps)
+            candidate = _build_solution(x_vals, columns, eps)
+            obj = float(sum(candidate.values()))
+            if obj < best_obj - eps and _covers(candidate, demands):
+                best_solution = candidate
                 best_obj = obj
 
                 # Check gap
@@ -426,6 +427,8 @@ def _solve_bounded_master_lp(columns, demands, col_bounds, eps):
     if tab[-1][-1] < -eps:
         return [0.0] * n, [0.0] * m, float("inf")
 
+    drive_out_artificials(tab, basis, n + n_surplus + n_slack + n_surplus_bounds, n_rows, eps)
+
     # Phase 2: minimize sum of x
     for j in range(n_vars + 1):
         tab[-1][j] = 0.0
@@ -474,6 +477,11 @@ def _build_solution(x_vals, columns, eps):
             if count > 0:
                 solution[columns[i]] = count
     return solution
+
+
+def _covers(solution, demands):
+    """True if the plan produces at least the demanded number of every piece."""
+    return all(sum(col[i] * cnt for col, cnt in solution.items()) >= demands[i] for i in range(len(demands)))
 
 
 def _round_solution(x_vals, columns, demands, eps):
